@@ -439,6 +439,9 @@ func runC18(c C18Case, tolerate bool) *fOutcome {
 			}
 			if vMid[i] != vOld[i] && vMid[i] != vNew[i] {
 				f := ffail("C18", "mixed-configuration", i, "at %s probe %q answers %s; entirely-old answers %s, entirely-new answers %s\nold:\n%s\nnew:\n%s", c.Pause, names[i], vMid[i], vOld[i], vNew[i], oldText, newText)
+				if strings.HasPrefix(vMid[i], "202") && !strings.HasPrefix(vOld[i], "202") && !strings.HasPrefix(vNew[i], "202") {
+					f.Prop = "C18,C08" // accepted under a mixture although neither configuration accepts it: an authentication bypass
+				}
 				if c.Pause == "reload.after-loadauth" || c.Pause == "state.write-unlocked" {
 					f.Sig = "reload-two-phase-swap"
 				}
@@ -812,3 +815,21 @@ func TestProp_C18_MgmtRollback(t *testing.T) {
 }
 
 var _ = json.Marshal
+
+// TestProp_C08_ReloadWindow: the reload pairs for C08's share - no request is accepted inside a
+// reload that neither the old nor the new configuration would accept.
+func TestProp_C08_ReloadWindow(t *testing.T) {
+	gen := rapid.Custom(func(t *rapid.T) C18Case {
+		c := genC18Case().Draw(t, "case")
+		c.Mode = "pause"
+		return c
+	})
+	frontProp(t, "C08", "TestProp_C08_ReloadWindow", gen, func(c C18Case, tol bool) *fOutcome {
+		out := runC18(c, tol)
+		if f := out.Failure; f != nil && f.Prop != "HARNESS" && !strings.Contains(f.Prop, "C08") {
+			out.Failure = nil
+			out.Labels["foreign-clause"] = true
+		}
+		return out
+	})
+}
